@@ -56,6 +56,15 @@ class EFalsy(Boom):
         return 0
 
 
+class ERt(Boom, RuntimeError):
+    """A planned failure that belongs to the RuntimeError family (as NotImplementedError, RecursionError or the
+    errors executors raise themselves do)."""
+
+
+class EKey(Boom, KeyError):
+    """... and one of the LookupError family."""
+
+
 class Fatal(BaseException):
     def __init__(self, node=None, attempt=None, run=None):
         super().__init__(node, attempt, run)
@@ -72,7 +81,7 @@ class AlreadySaved(Exception):
     pass
 
 
-EXC = {'E1': E1, 'E2': E2, 'E1Sub': E1Sub, 'EOther': EOther, 'EFalsy': EFalsy, 'Fatal': Fatal,
+EXC = {'E1': E1, 'E2': E2, 'E1Sub': E1Sub, 'EOther': EOther, 'EFalsy': EFalsy, 'ERt': ERt, 'EKey': EKey, 'Fatal': Fatal,
        'Exception': Exception, 'BaseException': BaseException}
 
 RUN = contextvars.ContextVar('rv_run', default=None)
